@@ -410,7 +410,10 @@ func judge(r *vkit.R, st *state, p int, n, pickers int, fresh bool, lg *pickLog,
 	if k == 0 {
 		r.Count("batches_no_ready_endpoint", 1)
 		if len(lg.counts) > 0 {
-			r.Violation("C14/pick/not-ready", fmt.Sprintf("policy %d has no ready endpoint but Pop() returned %v", p, lg.counts), w)
+			// that a picked endpoint is a ready endpoint of the policy is C03's clause; C14 speaks of the shares over a stable
+			// ready set, and a pick outside of it makes this batch's evenness verdict void
+			r.Count("picks_outside_the_ready_set_not_judged", len(lg.counts))
+			r.Count("batches_void_because_of_picks_outside_the_ready_set", 1)
 		}
 		return
 	}
@@ -425,7 +428,9 @@ func judge(r *vkit.R, st *state, p int, n, pickers int, fresh bool, lg *pickLog,
 	}
 	for e := range lg.counts {
 		if !isReady[e] {
-			r.Violation("C14/pick/not-ready", fmt.Sprintf("Pop() returned %s which is not a ready endpoint of policy %d (ready: %v)", e, p, ready), w)
+			// C03's clause, not C14's (see above): the batch is void
+			r.Count("picks_outside_the_ready_set_not_judged", lg.counts[e])
+			r.Count("batches_void_because_of_picks_outside_the_ready_set", 1)
 			return
 		}
 	}
@@ -1531,6 +1536,7 @@ func TestCheck(t *testing.T) {
 		r.Set("lin_slowest_search_ms", float64(atomic.LoadInt64(&linSlowest))/1e6)
 		r.Require(r.Counter("lin_histories")-r.Counter("lin_histories_not_searched_after_the_run_had_its_verdict") >= int64(tierN(r, 120, 2400)) || atomic.LoadInt32(&linStop) != 0, "too few linearizability histories")
 		r.Require(r.Counter("batches_with_noop_resyncs_and_a_disabled_server_listed") >= int64(tierN(r, 80, 500)), "too few batches with no-op re-syncs on a cluster that lists a disabled server")
+		r.Require(r.Counter("batches_void_because_of_picks_outside_the_ready_set")*20 <= r.Counter("batches_subset")+r.Counter("batches_nosubset"), "more than 5% of the batches were void because picks fell outside the expected ready set")
 		r.Require(r.Counter("lin_ops_overlapping_another") > 0, "no overlapping picks were observed in the linearizability histories")
 		r.Require(r.Counter("large_nosubset_batches") >= int64(tierN(r, 10, 60)), "too few large batches on policies without subset")
 		r.Require(r.Counter("batches_k2")+r.Counter("batches_k3")+r.Counter("batches_k4")+r.Counter("batches_k5")+r.Counter("batches_k6") >= int64(tierN(r, 200, 1200)), "too few batches with k>=2 ready endpoints")
